@@ -369,11 +369,12 @@ def ex_interp_env(c):
 
 def ex_winterp(c):
     x, y = arr(c["x"]), arr(c["y"])
+    kw = {} if c.get("method", "linear") == "linear" and not c.get("explicit_method") else {"method": c.get("method", "linear")}
     if c["mode"] == "n":
-        woc, w, unch = wrun(x, y, lambda w: w.interpolate(n=c["n"]))
+        woc, w, unch = wrun(x, y, lambda w: w.interpolate(n=c["n"], **kw))
     else:
         q = arr(c["q"], c.get("qcontainer", "array"))
-        woc, w, unch = wrun(x, y, lambda w: w.interpolate(new_x=q))
+        woc, w, unch = wrun(x, y, lambda w: w.interpolate(new_x=q, **kw))
     e = dict(c)
     e.update(outcome=woc, w_unchanged=unch)
     e.update(wfields(w, woc, ref=False))
